@@ -280,6 +280,26 @@ def run(ctx) -> None:
     rep.add("C20.R4", f"{fl.qname}", ok, fl.loc(), "each node is added once under its hierarchical id with its parent link; recursion descends into nested graphs with that id as parent" if ok else "flattening does not add each nested node once with id/parent link, or recurses with the wrong parent")
     tf = db.func("graph.core.Graph.to_flat_graph")
     ok = any("_flatten_nodes" in call_names(db, c, tf) and any(k.arg == "parent" and isinstance(k.value, ast.Constant) and k.value.value is None for k in c.keywords) for c in db.calls_in(tf)) and any("_flatten_edges" in call_names(db, c, tf) for c in db.calls_in(tf))
+    # edges of a (nested) graph are translated with a lookup of *that* scope: names are unique per graph only
+    gcls = db.cls("graph.core.Graph")
+    lk = gcls.methods.get("_build_name_to_id_lookup")
+    okl, whyl = False, "the name -> id lookup builder was not found"
+    if lk is not None:
+        scope_params = [p_ for p_ in lk.param_names if p_ not in ("self", "G")]
+        filt = False
+        for x in walk_local(lk.node):
+            if isinstance(x, ast.Compare) and len(x.ops) == 1 and isinstance(x.ops[0], ast.Eq):
+                sides = [src(x.left), src(x.comparators[0])]
+                if any("'parent'" in s_.replace('"', "'") for s_ in sides) and any(s_ in scope_params for s_ in sides):
+                    filt = True
+        okl = bool(scope_params) and filt
+        whyl = "the lookup holds the children of one container only (filtered by the parent link)" if okl else "the name -> id lookup is not restricted to one container's children: equally named nodes of different scopes overwrite each other, edges of a nested graph are attached to a root node of the same name"
+        if okl:
+            ane = gcls.methods.get("_add_nested_edges")
+            per_scope = ane is not None and any(lk.name in call_names(db, c_, ane) and len(c_.args) >= 2 and isinstance(c_.args[1], ast.Name) and c_.args[1].id in ane.param_names for c_ in db.calls_in(ane))
+            if not per_scope:
+                okl, whyl = False, "nested edges are not translated with a lookup built for their own container"
+    rep.add("C20.R4", f"{gcls.qname}._build_name_to_id_lookup:per-scope", okl, lk.loc() if lk else gcls.loc(), whyl)
     rep.add("C20.R4", f"{tf.qname}", ok, tf.loc(), "flat graph = nodes flattened from the root (parent None) + flattened edges" if ok else "to_flat_graph does not flatten nodes from the root and then edges")
 
     # ---- R6 -------------------------------------------------------------------------
